@@ -1,5 +1,6 @@
 import MidoProofs.SrcTie.Codec
 import MidoProofs.SrcTie.Msg
+import MidoProofs.SrcTie.MsgDecision
 #print axioms Mido.src_decode_sysex_data
 #print axioms Mido.src_decode_quarter_frame
 #print axioms Mido.src_decode_songpos
@@ -13,3 +14,4 @@ import MidoProofs.SrcTie.Msg
 #print axioms Mido.special_fn
 #print axioms Mido.dec_sysex
 #print axioms Mido.dec_undefined
+#print axioms Mido.src_decode_decision
